@@ -4,6 +4,9 @@
 //! API and logs every observed string again as an array of code points (an injective encoding, no
 //! interpretation), every count as an integer and every tf-idf entry as round(v * 10^4).
 //! No oracle logic lives here: tokenisation, n-grams, filtering and idf are recomputed by TLC.
+//! kind "hist" replays a builder *history*: use with settings s1 (check_ref / fit), re-configuration through
+//! exactly the setters whose setting differs (on the same value or on a clone), fit with s2, and (clone) a
+//! second fit of the untouched original; every fit event names the settings and corpus it was made with.
 use linfa_preprocessing::tf_idf_vectorization::{FittedTfIdfVectorizer, TfIdfMethod, TfIdfVectorizer};
 use linfa::ParamGuard;
 use linfa_preprocessing::{CountVectorizer, CountVectorizerParams, Tokenizer};
@@ -176,10 +179,138 @@ fn run_idf(inp: &Value) -> Vec<Value> {
     ev
 }
 
+/// tokenizer value for a *re*-configuration: "default" has to be spelled out as its regex
+fn tokenizer_value(kind: &str) -> Tokenizer {
+    match tokenizer_of(kind) {
+        Some(t) => t,
+        None => Tokenizer::Regex(r"\b\w\w+\b".to_string()),
+    }
+}
+
+/// Re-configure a builder that was built (and used) with settings `a` to settings `b`, calling exactly the
+/// setters whose setting differs. Both builders have the same setter names.
+macro_rules! reconfigure {
+    ($p:expr, $a:expr, $b:expr) => {{
+        let (a, b): (&Settings, &Settings) = ($a, $b);
+        let mut p = $p;
+        if a.tok != b.tok {
+            p = p.tokenizer(tokenizer_value(&b.tok));
+        }
+        if a.lower != b.lower {
+            p = p.convert_to_lowercase(b.lower);
+        }
+        if a.norm != b.norm {
+            p = p.normalize(b.norm);
+        }
+        if (a.nmin, a.nmax) != (b.nmin, b.nmax) {
+            p = p.n_gram_range(b.nmin, b.nmax);
+        }
+        if (a.dfmin, a.dfmax) != (b.dfmin, b.dfmax) {
+            p = p.document_frequency(b.dfmin, b.dfmax);
+        }
+        if a.stop != b.stop {
+            let sw: Vec<String> = b.stop.clone().expect("history cases only set (never unset) a stop list");
+            p = p.stopwords(&sw[..]);
+        }
+        if a.cap != b.cap {
+            p = p.max_features(b.cap);
+        }
+        p
+    }};
+}
+
+/// kind "hist": a builder is used once with settings s1 (check_ref or a fit on train1), then re-configured
+/// through its setters (on the same value or on a clone) to settings s2 and fitted on `train`; with a clone,
+/// the original is afterwards fitted on `train` again (it must still behave as s1).
+fn run_hist(inp: &Value) -> Vec<Value> {
+    let s1 = settings(&inp["st1"]);
+    let s2 = settings(&inp["st"]);
+    let api = gets(inp, "api").to_string();
+    let first = gets(inp, "first").to_string();
+    let via = gets(inp, "via").to_string();
+    let train1 = Array1::from(strings(&inp["train1"]));
+    let train = Array1::from(strings(&inp["train"]));
+    let test = Array1::from(strings(&inp["test"]));
+    let mut ev: Vec<Value> = vec![];
+
+    macro_rules! observe_count {
+        ($fitres:expr, $cfg:expr, $corpus:expr, $ons:expr) => {{
+            match $fitres {
+                Err(e) => ev.push(json!({"ev": "fit", "api": "count", "cfg": $cfg, "corpus": $corpus, "ok": false, "err": ascii(&e.to_string())})),
+                Ok(cv) => {
+                    ev.push(json!({"ev": "fit", "api": "count", "cfg": $cfg, "corpus": $corpus, "ok": true, "vocab": vocab_json(cv.vocabulary()), "nentries": cv.nentries() as i64}));
+                    for (on, a) in $ons {
+                        match cv.transform(a) {
+                            Err(e) => ev.push(json!({"ev": "count", "on": on, "ok": false, "err": ascii(&e.to_string())})),
+                            Ok(m) => {
+                                let (rows, nr, nc) = dense_counts(&m);
+                                ev.push(json!({"ev": "count", "on": on, "ok": true, "rows": nr as i64, "cols": nc as i64, "m": rows}));
+                            }
+                        }
+                    }
+                }
+            }
+        }};
+    }
+    macro_rules! observe_tfidf {
+        ($fitres:expr, $cfg:expr, $corpus:expr, $ons:expr) => {{
+            match $fitres {
+                Err(e) => ev.push(json!({"ev": "fit", "api": "tfidf", "cfg": $cfg, "corpus": $corpus, "ok": false, "err": ascii(&e.to_string())})),
+                Ok(tv) => {
+                    ev.push(json!({"ev": "fit", "api": "tfidf", "cfg": $cfg, "corpus": $corpus, "ok": true, "method": "smooth", "vocab": vocab_json(tv.vocabulary()), "nentries": tv.nentries() as i64}));
+                    for (on, a) in $ons {
+                        match tv.transform(a) {
+                            Err(e) => ev.push(json!({"ev": "tfidf", "on": on, "ok": false, "err": ascii(&e.to_string())})),
+                            Ok(m) => {
+                                let (rows, nr, nc, finite) = dense_tfidf(&m);
+                                ev.push(json!({"ev": "tfidf", "on": on, "ok": true, "method": "smooth", "rows": nr as i64, "cols": nc as i64, "finite": finite, "m": rows}));
+                            }
+                        }
+                    }
+                }
+            }
+        }};
+    }
+
+    if api == "count" {
+        let base = count_params(&s1);
+        if first == "check_ref" {
+            let ok = base.check_ref().is_ok();
+            ev.push(json!({"ev": "check", "ok": ok}));
+        } else {
+            observe_count!(base.fit(&train1), "s1", "train1", [("train1", &train1)]);
+        }
+        if via == "clone" {
+            let p2 = reconfigure!(base.clone(), &s1, &s2);
+            observe_count!(p2.fit(&train), "s2", "train", [("train", &train), ("test", &test)]);
+            observe_count!(base.fit(&train), "s1", "train", [("test", &test)]);
+        } else {
+            let p2 = reconfigure!(base, &s1, &s2);
+            observe_count!(p2.fit(&train), "s2", "train", [("train", &train), ("test", &test)]);
+        }
+    } else {
+        let base = tfidf_params(&s1);
+        observe_tfidf!(base.fit(&train1), "s1", "train1", [("train1", &train1)]);
+        if via == "clone" {
+            let p2 = reconfigure!(base.clone(), &s1, &s2);
+            observe_tfidf!(p2.fit(&train), "s2", "train", [("train", &train), ("test", &test)]);
+            observe_tfidf!(base.fit(&train), "s1", "train", [("test", &test)]);
+        } else {
+            let p2 = reconfigure!(base, &s1, &s2);
+            observe_tfidf!(p2.fit(&train), "s2", "train", [("train", &train), ("test", &test)]);
+        }
+    }
+    ev.push(json!({"ev": "end"}));
+    ev
+}
+
 fn run(case: &Value) -> Vec<Value> {
     let inp = &case["inp"];
     if gets(case, "kind") == "idf" {
         return run_idf(inp);
+    }
+    if gets(case, "kind") == "hist" {
+        return run_hist(inp);
     }
     let st = settings(&inp["st"]);
     let train = strings(&inp["train"]);
